@@ -39,7 +39,7 @@ RULE = (
     "steps. Non-trivial: the case contains a call where a filter removed >=1 "
     "and kept >=1 operation of a list with >=2."
 )
-BUDGET = {"quick": 500, "thorough": 3000}
+BUDGET = {"quick": 500, "thorough": 6000}
 ASSUMPTIONS = [
     "criteria as written in jsverif/model.py (f_* methods) from the filter docstrings and the property statement",
     "dominated filter with a zero duration in its input: only sub-list and non-emptiness are asserted",
